@@ -113,7 +113,7 @@ def run(tier, t0):
     vlib.build_harness()
     runs = [("d2", "Types_full.cfg" if thorough else "Types_quick.cfg", None)]
     if thorough:
-        runs.append(("deep", "Types_deep.cfg", 30000))
+        runs.append(("deep", "Types_deep.cfg", 6))   # per worker; every successor along each random walk is emitted
     cases = []
     states = trans = 0
     seen = set()
